@@ -82,6 +82,16 @@ CLAIMED.update({
    technique="Coq proof over solution rows as data (oracle) + vm_compute correspondence + differential check of forbidden syntax",
    ref="4 (C05)"),
 })
+CLAIMED.update({
+ "C06": dict(
+   text="Coq proofs about the model of report assembly (create_validation_report / make_v_result): one report node with one sh:conforms literal = verdict and |results| sh:result links; every result node at any sh:detail depth has exactly one "
+        "focusNode/severity/component/sourceShape/type and at most one value/resultPath, for every result list; verdict = all top-level severities waived under every option combination; a non-conforming report is never empty. "
+        "On the real code: structural check of every report (graph, text, boolean agree; counts; well-formed nested results; terms denote terms of the validated graphs; blank-node descriptions copied) across 10 option settings incl. advanced, sparql_mode, inference and Dataset input; "
+        "per-predicate triple counts compared with the model's report graph.",
+   note=BASE_NOTE + "Report text is compared through its parsed Conforms/Results lines and result-block count; blank-node description copies are checked one level deep.",
+   technique="Coq proof (pre-order labelling of nested results, counting lemmas) + structural differential check on real reports + vm_compute correspondence",
+   ref="4 (C06)"),
+})
 NOT_YET = {}
 ALL = ["C%02d" % i for i in range(1, 21)]
 REASONS = {}
